@@ -26,10 +26,12 @@ def kani_playback(unit, harness, cfg_cmd_env):
     except subprocess.TimeoutExpired:
         return None, None
     out = p.stdout
-    m = re.search(r'```\s*\n(.*?)```', out, re.S)
-    if not m:
+    blocks = re.findall(r'```\s*\n(.*?)```', out, re.S)
+    blocks = [b for b in blocks if 'concrete_playback_run' in b]
+    if not blocks:
         return None, None
-    test = m.group(1)
+    pref = [b for b in blocks if 'Check for `cover`' not in b]
+    test = (pref or blocks)[0]
     vals = re.findall(r'//\s*(-?[0-9a-zA-Z_.\']+)\s*\n\s*vec!\[([0-9, ]*)\]', test)
     return test, [{'value': v, 'bytes': b} for v, b in vals]
 
@@ -73,7 +75,10 @@ def native_replay(unit, harness, test_text):
     marker = '// --- vx concrete playback (generated, removed after replay) ---'
     try:
         orig = open(lib).read()
-        open(lib, 'w').write(orig + '\n' + marker + '\n#[cfg(kani)]\nmod vx_playback { use super::*; use super::proofs::*;\n' + test_text + '\n}\n')
+        end_marker = '} // mod proofs'
+        if end_marker not in orig:
+            return {'error': 'harness crate has no `} // mod proofs` marker'}
+        open(lib, 'w').write(orig.replace(end_marker, marker + '\n' + test_text + '\n' + end_marker, 1))
         env = dict(os.environ)
         env['CARGO_NET_OFFLINE'] = 'true'
         env['CARGO_TARGET_DIR'] = os.path.join(BUILD, 'kani-target', unit + '-playback')
